@@ -58,6 +58,8 @@ def run(tier, seed, only, jobs):
     from props.common import wrap as _wrap
     _wrap(U, "C05.GetSelectedOutputValue.forwards_the_table_cell", CV.unit_get_value)
     _wrap(U, "C05.GetSelectedOutputValue2.type_and_value_of_the_cell", CV.unit_get_value2)
+    _wrap(U, "C05.IPhreeqc_EndRow.every_user_punch_heading_gets_a_cell", CV.unit_iphreeqc_endrow)
+    _wrap(U, "C05.punch_all.cells_follow_heading_order", CV.unit_punch_order)
     if only:
         U = [x for x in U if only in x[0]]
     res = core.run_units(U, jobs=jobs)
